@@ -95,6 +95,81 @@ x = 2
 YIELD(f())
 YIELD(99)
 RETNIL`, "panic:explicit"),
+		Raw("panic-in-argument-of-returned-generator-call", `
+func §boom(s string) int { panic(tr.V(1, s)) }
+func §leaf(n int) ITER[int] GEN[int]{
+	YIELD(n)
+	RETNIL
+}GEN
+func §gen() ITER[int] GEN[int]{
+	YIELD(1)
+	YIELD(2)
+	RETX<<§leaf(§boom("E1"))>>RETX
+}GEN
+`+StdEntry, "return-expr"),
+		Raw("panic-in-returned-call-inside-switch-in-loop", `
+func §boom(s string) int { panic(tr.V(1, s)) }
+func §leaf(n int) ITER[int] GEN[int]{
+	YIELD(n)
+	RETNIL
+}GEN
+func §gen() ITER[int] GEN[int]{
+	for i := 0; i < 5; i++ {
+		switch i {
+		case 3:
+			RETX<<§leaf(§boom("E2"))>>RETX
+		default:
+			YIELD(i)
+		}
+	}
+	YIELD(99)
+	RETNIL
+}GEN
+`+StdEntry, "return-expr"),
+		Raw("panic-nil-interface-loop-condition-after-yielding-if", `
+type §src interface {
+	Next() bool
+	Val() int
+}
+
+func §drain(header bool, s §src) ITER[int] GEN[int]{
+	if header {
+		YIELD(-1)
+	}
+	for s.Next() {
+		YIELD(s.Val())
+	}
+	RETNIL
+}GEN
+func §gen() ITER[int] GEN[int]{
+	YIELD(0)
+	YFROM(§drain(tr.B(1), nil))
+	YIELD(5)
+	RETNIL
+}GEN
+func §E() {
+	drv.Run[int](func() drv.It[int] { it := §drain(true, nil); return it })
+	drv.Run[int](func() drv.It[int] { it := §drain(false, nil); return it })
+	drv.Run[int](func() drv.It[int] { it := §gen(); return it })
+}
+`, "panic:nil-interface"),
+		Raw("panic-nil-pointer-method-loop-condition-first-statement", `
+type §node struct{ next *§node }
+
+func (n *§node) More() bool { return n.next != nil }
+func §gen(n *§node) ITER[int] GEN[int]{
+	for n.More() {
+		YIELD(1)
+		n = n.next
+	}
+	YIELD(2)
+	RETNIL
+}GEN
+func §E() {
+	drv.Run[int](func() drv.It[int] { it := §gen(nil); return it })
+	drv.Run[int](func() drv.It[int] { it := §gen(&§node{}); return it })
+}
+`, "panic:nil-pointer"),
 		G("panic-nil-func-call", `
 var f func() int
 YIELD(1)
